@@ -1,6 +1,6 @@
 #!/usr/bin/env python3
 """Refresh the generated tables of DESIGN.md (between <!-- name:begin --> and <!-- name:end --> markers)."""
-import os, re, subprocess, sys
+import json, os, re, subprocess, sys
 VERIF = os.path.dirname(os.path.dirname(os.path.abspath(__file__)))
 
 
@@ -10,11 +10,104 @@ def put(s, name, text):
     return s[:i] + '\n' + text.strip('\n') + '\n' + s[j:]
 
 
+def esc(x):
+    return str(x).replace('|', '\\|').replace('\n', ' ')
+
+
+def fixed_table():
+    import json
+    k = json.load(open(os.path.join(VERIF, 'known_findings.json')))
+    rows = ['%d repaired defects.' % len(k['fixed']), '', '| Property | commit | what failed on the pinned tree |', '|---|---|---|']
+    for f in k['fixed']:
+        rows.append('| %s | `%s` | %s |' % (f['property'], f['commit'], esc(f['what'])))
+    return '\n'.join(rows)
+
+
+def figures_table():
+    import json, glob
+    rows = ['| Prop | tier, seed | cases | distinct non-trivial | wall | hook events | monitor counters (largest) | distinct states observed |', '|---|---|---|---|---|---|---|---|']
+    for f in sorted(glob.glob(os.path.join(VERIF, 'evidence', 'C*.json'))):
+        e = json.load(open(f))
+        c = e['coverage']
+        mc = sorted(((v, k) for k, v in c.get('monitor_counters', {}).items() if isinstance(v, (int, float)) and not k.startswith('nf9_skip')), reverse=True)[:4]
+        ds = sorted(((v, k) for k, v in c.get('distinct_states', {}).items()), reverse=True)[:4]
+        rows.append('| %s | %s, %s | %s | %s | %s s | %s | %s | %s |' % (
+            e['property_id'], e['tier'], e['seed'], c['evaluations'], c['distinct_nontrivial'], e['wall_s'], sum(c.get('hook_events', {}).values()),
+            esc(', '.join('%s=%s' % (k, v) for v, k in mc)) or '-', esc(', '.join('%s: %s' % (k, v) for v, k in ds)) or '-'))
+    return '\n'.join(rows)
+
+
+def asbuilt():
+    """per-property as-built notes from the check modules (needs the repository's interpreter for the imports)"""
+    import json
+    code = r"""
+import json, importlib, sys, glob, os
+sys.path.insert(0, %r)
+out = {}
+for i in range(1, 21):
+    pid = 'C%%02d' %% i
+    m = importlib.import_module('pvmon.props.c%%02d' %% i)
+    out[pid] = {'doc': (m.__doc__ or '').strip(), 'rule': m.RULE, 'assumptions': list(getattr(m, 'ASSUMPTIONS', [])), 'level': getattr(m, 'LEVEL', ''),
+                'hooks': list(getattr(m, 'DECIDING_HOOKS', [])), 'reach': list(getattr(m, 'DECIDING_REACH', [])), 'counters': dict(getattr(m, 'DECIDING_COUNTERS', {})),
+                'watch': dict(getattr(m, 'WATCH_LINES', {})), 'budget': {t: {k: v for k, v in m.budget(t).items()} for t in ('quick', 'thorough')}}
+print(json.dumps(out))
+""" % VERIF
+    r = subprocess.run(['/venv/bin/python', '-c', code], capture_output=True, text=True, check=True, env=dict(os.environ, PYTHONHASHSEED='0'))
+    mods = json.loads(r.stdout)
+    import glob
+    res = {}
+    for pid, m in mods.items():
+        L = []
+        L.append('*What runs.* ' + ' '.join(x.strip() for x in m['doc'].splitlines()[1:] if x.strip()))
+        L.append('')
+        L.append('*Workload.* ' + m['rule'])
+        L.append('')
+        L.append('*Budgets.* quick %s; thorough %s.' % (json.dumps(m['budget']['quick']), json.dumps(m['budget']['thorough'])))
+        L.append('')
+        dec = []
+        if m['hooks']:
+            dec.append('wrappers that must fire: ' + ', '.join('`%s`' % h for h in m['hooks']))
+        if m['reach']:
+            dec.append('functions that must be entered: ' + ', '.join('`%s`' % h for h in m['reach']))
+        if m['counters']:
+            dec.append('monitor counters with a floor: ' + ', '.join('`%s` >= %s' % kv for kv in sorted(m['counters'].items())))
+        if m['watch']:
+            dec.append('watched statements (each must be executed): ' + ', '.join('`%s` ~ `%s`' % kv for kv in sorted(m['watch'].items())))
+        L.append('*Inconclusive unless* ' + '; '.join(dec) + '; at least 2 distinct non-trivial cases; no harness error, no per-case timeout.')
+        L.append('')
+        if m['assumptions']:
+            L.append('*Assumptions.* ' + '; '.join(m['assumptions']) + '.')
+            L.append('')
+        seeds = []
+        for d in sorted(glob.glob(os.path.join(VERIF, 'seeded', pid + '*'))):
+            try:
+                meta = json.load(open(os.path.join(d, 'meta.json')))
+            except Exception:
+                continue
+            v = meta.get('verified_by_pvmon', {})
+            c = v.get('checks', {}).get(pid, {})
+            keys = sorted(set(re.findall(r'key=(\S+)', ' '.join(c.get('lines', [])))))
+            first = ' (missed by the first version)' if any(list(e.values())[0]['rc'] == 0 for e in v.get('earlier_results', [])) else ''
+            seeds.append('`seeded/%s`%s -> %s' % (os.path.basename(d), first, ', '.join('`%s`' % k for k in keys[:4]) or 'rc %s' % c.get('rc')))
+        if seeds:
+            L.append('*Seeded changes caught (quick tier).* ' + '; '.join(seeds) + '.')
+        res[pid] = '\n'.join(esc2(x) for x in L)
+    return res
+
+
+def esc2(x):
+    return x
+
+
 def main():
     p = os.path.join(VERIF, 'DESIGN.md')
     s = open(p).read()
     t = subprocess.run([sys.executable, os.path.join(VERIF, 'tools', 'seeded_table.py')], capture_output=True, text=True, check=True).stdout
     s = put(s, 'seeded-table', t)
+    s = put(s, 'fixed-table', fixed_table())
+    s = put(s, 'figures-table', figures_table())
+    for pid, text in asbuilt().items():
+        s = put(s, 'asbuilt-' + pid, text)
     open(p, 'w').write(s)
 
 
